@@ -66,6 +66,7 @@ def get_character_data(elem: ElementType) -> Optional[str]:
     parts.extend(child.tail or '' for child in elem)
     return ''.join(parts) or None
 
+
 if TYPE_CHECKING:
     from .attributes import XsdAttributeGroup  # noqa: F401
     from .groups import XsdGroup  # noqa: F401
